@@ -103,12 +103,18 @@ Chain == {[fam |-> "chain", a |-> "x", b |-> ToString(n), op |-> o,
            must |-> IF o = "or" THEN {15} ELSE {16}, times |-> n,
            mustnot |-> (IF o = "or" THEN {16} ELSE {15}) \cup {21}] : o \in {"or", "and"}, n \in 2..3}
 
-Instances == DupKey \cup Arity \cup DupParam \cup BinExp \cup AndFalse \cup FloatEq \cup DupIf \cup SelfAssign \cup Chain
+\* indexed operands: t[1] and t[2] (or t[x] and t[y]) are different expressions whatever the table holds; the same index
+\* twice is left open like the other composite operands
+Idx == {"t[1]", "t[2]", "t[x]", "t[y]", "t[x + 1]", "t[x - 1]"}
+IdxExp == {[fam |-> "idxexp", a |-> l, b |-> r, op |-> o,
+            must |-> {}, mustnot |-> (IF l # r THEN {14} ELSE {}) \cup {15, 16, 21}] : l \in Idx, r \in Idx, o \in {"==", "~=", "<=", "or", "and"}}
+
+Instances == IdxExp \cup DupKey \cup Arity \cup DupParam \cup BinExp \cup AndFalse \cup FloatEq \cup DupIf \cup SelfAssign \cup Chain
 
 \* where the instance's expression / constructor / parameter list is planted inside its statement
 \* ("surplus": the value beyond the names of a local declaration -- local s = 1, <here> -- which is itself an instance of
 \* check 8, and still a place where the other patterns occur)
-ECtx(f) == CASE f \in {"binexp", "andfalse", "floateq", "chain"} -> {"arg", "cond", "while", "tbl", "ret", "index", "surplus"}
+ECtx(f) == CASE f \in {"binexp", "andfalse", "floateq", "chain", "idxexp"} -> {"arg", "cond", "while", "tbl", "ret", "index", "surplus"}
              [] f = "dupkey" -> {"local", "arg", "ret", "surplus"}
              [] f = "params" -> {"lfunc", "anon", "arg", "gfunc", "surplus"}
              [] OTHER -> {"stmt"}
